@@ -299,6 +299,12 @@ impl BitvecBuilder {
 //@use cursor.fns ::bitstring_and
 //@use cursor.fns ::bitstring_or
 //@use cursor.fns ::bitstring_xor
+// the system's random source (getrandom crate; ASSUMED): fills the buffer
+#[verifier::external_body] fn verif_getrandom(buf: &mut Vec<u8>) ensures final(buf)@.len() == old(buf)@.len() { unimplemented!() }
+//@use bitstr.fns ::upper_bound_index assumed
+//@use cursor.fns ::random_bits
+#[verifier::external_body] fn verif_exec_piped(path: &Xstr, buf: &std::borrow::Cow<'_, [u8]>) -> (r: Xresult1<Vec<u8>>) ensures r is Ok ==> r->Ok_0@.len() * 8 <= usize::MAX { unimplemented!() }
+//@use cursor.fns ::word_exec_piped
 //@use cursor.fns ::intercept_output
 // ASSUMED stubs: UTF-8 decoding (String::from_utf8 + error bookkeeping), the file system
 #[verifier::external_body] fn decode_utf8_str(bytes: Vec<u8>) -> Xresult1<String> { unimplemented!() }
@@ -574,6 +580,8 @@ fn lemma_zero85_pair(xs: &mut State)
 //@use words.fns ::load#w_bitstr_and
 //@use words.fns ::load#w_bitstr_or
 //@use words.fns ::load#w_bitstr_xor
+//@use words.fns ::load#w_random_bits
+//@use words.fns ::load#w_exec_piped
 // the data words of the word table (Rword)
 //@use words.fns ::load#w_u8
 //@use words.fns ::load#w_u8_bang
